@@ -48,6 +48,9 @@ fn normalise(dom: &mut WeakDom) -> Vec<Ref> {
                     i.properties.remove(&key);
                 }
                 // the model's second UniqueId-typed value follows the payload: positional as well
+                if key.as_str() == "Archivable" {
+                    i.properties.insert(key, Variant::Bool(k % 3 != 0));
+                }
                 if key.as_str() == "HistoryId" {
                     i.properties.insert(key, Variant::UniqueId(crate::dommodel::history_value(k as i32)));
                 }
